@@ -77,6 +77,10 @@ CHECKS = {
    text="Fault enumeration against the real exporter subprocess: every sequence of length 1 and 2 over the alphabet of (client behaviour x observation-socket behaviour) pairs is executed exhaustively (reduced alphabet in quick, full in thorough), sequences of length 3-4 are sampled; each is followed by a probe request that must receive a complete 200 response within a deadline, well-formed requests inside the sequence must get 200/500, and on a miss the process is classified as exited / spinning (CPU time from /proc) / hanging.",
    note="Only clients that go away are generated. Needs loopback TCP and Unix sockets.",
    technique="fault-sequence enumeration (exhaustive to length 2, sampled beyond) with a liveness probe oracle"),
+ "C01": dict(level="exploration", design="DESIGN.md §4 C01",
+   text="Discrete-event simulation of networks of real PtpInstances (2-4 nodes quick, 2-7 thorough; point-to-point links, shared segments, rings, two ports of one instance on one segment) with generated rankings (incl. clockClass < 128 and slave-only nodes), delays, jitter, BMCA phases and event tie-breaks, followed by one generated fault (cut / cut-and-restore an endpoint, silence a node, change a node's quality, toggle slave-only). The predicates of the statement (best node is the only grandmaster; every reachable slave-capable node has exactly one slave port whose parent chain reaches it with stepsRemoved decreasing by one; one master port per segment; isolated ports master; no stale slave) must hold from some point inside an explicit bound onwards, and every port state and the hierarchy part of all data sets must stay constant over the following 12 announce intervals, evaluated at every BMCA of every node.",
+   note="Liveness as bounded-horizon safety with explicit bounds: (2*receiptTimeout+7)*(diameter+2) announce intervals, plus 510 intervals when the post-fault topology contains a cycle (IEEE 1588 count-to-infinity of a lost grandmaster's data set without path trace). Slave-only nodes are generated with clockClass 255 and a priority1 behind all master-capable nodes (a slave-only instance whose own data set wins the comparison never synchronises; the daemon does not enforce class 255 - noted in DESIGN.md).",
+   technique="property-based testing over generated topologies/rankings/schedules/faults with a discrete-event simulator and graph-based oracle"),
 }
 NA_REASON = "check not built yet in this round (design in DESIGN.md §4); will be claimed once its check exists"
 
